@@ -211,7 +211,7 @@ def pauli_arms(facts, f):
 PAULI_REF = {'I': [], 'X': [('X', 1)], 'Z': [('Z', 1)], 'Y': [('Z', 1), ('X', 1)]}    # Y = i X Z: Z is applied first (next to the circuit), then X, times e^{i pi/2}
 
 
-def run(ck):
+def _run_own(ck):
     facts = ck.facts
     ck.decided('D1 sampling draws each bit with a CONDITIONAL probability: the Bernoulli parameter combines two marginals (the current one and a loop-carried prefix probability or a second marginal) through a division',
                'D2 malformed queries are rejected, not panicked on: the length validation returning Err(StringWrongLen) dominates the first use of the string; both parsers map every other character to Err',
@@ -329,3 +329,9 @@ def run(ck):
     # positive controls
     fx = fixture()
     ck.control('R-DATAFLOW flags a joint-probability sampler', marginal_slices(fx['fns']['cli::sim::sample'])['conditional'] is False)
+
+
+def run(ck, **kw):
+    _run_own(ck)
+    ck.include('C05', 'every printed number is the value the decomposer returns')
+    ck.include('C11', 'the diagrams handed to the decomposer are built with plug_inputs / plug_output / plug / to_adjoint of graph.rs')
